@@ -472,6 +472,11 @@ def hist_ops(cfg):
         for pp in (True, False):
             A({"k": "call", "store": name, "post": pp})
     A({"k": "call", "store": False, "post": True})
+    # another request of the same size at other positions / of another quantity (work space of equal shape)
+    A({"k": "call", "store": "f2", "post": False, "pos": "alt"})
+    A({"k": "call", "store": "f2", "post": True, "pos": "alt"})
+    if cfg["obj"] == "Krige":
+        A({"k": "call", "store": "mf", "post": False, "only_mean": True})
     for method, kw in [("zinnharvey", {}), ("normal_to_lognormal", {}), ("normal_force_moments", {}), ("binary", {}), ("discrete", {"values": [0.0, 1.0, 2.0]}), ("normal_to_uniform", {}), ("function", {})]:
         for src, dst, proc in [("field", "t1", False), ("field", "t1", True), ("field", True, True), ("f2", "t2", True), ("t1", "t2", False)]:
             if method not in ("zinnharvey", "function", "normal_force_moments") and (src != "field" or dst is True):
@@ -490,6 +495,7 @@ def case_store_hist(case):
     returned = []  # (label, array, snapshot)
     stored_snap = {}
     krige_snap = {}
+    cur_pos = None
     kind = cfg["obj"]
     last_fail_extra = {}
     for i, op in enumerate(hist):
@@ -498,15 +504,17 @@ def case_store_hist(case):
         try:
             if op["k"] == "call":
                 kw = dict(store=op["store"], post_process=op["post"])
+                HP = HPOS if op.get("pos") != "alt" else HPOS[::-1] * 0.8 + 0.35
                 if kind == "Field":
-                    out = obj(HPOS, field=0.2 + 0.1 * np.arange(5.0), **kw)
+                    out = obj(HP, field=0.2 + 0.1 * np.arange(5.0), **kw)
                 elif kind == "SRF":
-                    out = obj(HPOS, seed=7, **kw)
+                    out = obj(HP, seed=7, **kw)
                 elif kind == "Krige":
-                    out = obj(HPOS, store=[op["store"], False] if op["store"] is not False else False, post_process=op["post"])[0]
+                    out = obj(HP, store=[op["store"], False] if op["store"] is not False else False, post_process=op["post"], only_mean=bool(op.get("only_mean")))
+                    out = out[0] if isinstance(out, tuple) else out
                 else:
                     # (raw field and raw kriging field under their default names: the reuse path of later calls)
-                    out = obj(HPOS, seed=7, store=[op["store"], True, True] if op["store"] is not False else False, post_process=op["post"])
+                    out = obj(HP, seed=7, store=[op["store"], True, True] if op["store"] is not False else False, post_process=op["post"])
                 target = op["store"] if op["store"] is not False else None
             elif op["k"] == "transform":
                 if op["field"] not in obj.field_names:
@@ -533,7 +541,9 @@ def case_store_hist(case):
             extra = {"obj": kind, "opk": op["k"], "method": op.get("m", ""), "process": op.get("process", None), "entry": "history"}
             for label, arr, sn in returned:
                 r.true("array returned earlier is unchanged", snap(arr) == sn, info=f"returned by step {label} changed after {op}", **extra)
-            for name, sn in stored_snap.items():
+            # (a request at other positions deletes the stored fields - documented; arrays handed out earlier stay)
+            moved = op["k"] == "call" and (op.get("pos", "base") != cur_pos)
+            for name, sn in ({} if moved else stored_snap).items():
                 if name == target:
                     continue
                 if name in obj.field_names:
@@ -541,9 +551,11 @@ def case_store_hist(case):
                 else:
                     r.fail("field stored earlier disappeared", name, "still stored", changed=name, **extra)
             # fields kept by the kriging instance behind a conditioned field (kriging variance) are results too
-            for name, sn in krige_snap.items():
+            for name, sn in ({} if moved else krige_snap).items():
                 if name in obj.krige.field_names and not (op["k"] == "call"):
                     r.true("field stored earlier in the kriging instance is unchanged", snap(obj.krige[name]) == sn, info=f"krige field '{name}' changed after {op}", changed="krige:" + name, **extra)
+        if op["k"] == "call":
+            cur_pos = op.get("pos", "base")
         if out is not None:
             returned.append((i, out, snap(out)))
         if kind == "CondSRF":
